@@ -245,10 +245,10 @@ Qed.
 Lemma landsE_hex_next s bg fg x y w h tx ty : landsE (hex_next s bg fg x y w h tx ty).
 Proof.
   unfold hex_next. destruct (tx + 16 >=? x + w); cbn zeta;
-    (destruct (_ >=? y + h); [apply landsE_do_connection|reflexivity]).
+    (destruct (_ || _); [apply landsE_do_connection|reflexivity]).
 Qed.
 Lemma landsE_hex_first s x y w h : landsE (hex_first s x y w h).
-Proof. unfold hex_first. destruct (_ >=? _); [apply landsE_do_connection|reflexivity]. Qed.
+Proof. unfold hex_first. destruct (_ || _); [apply landsE_do_connection|reflexivity]. Qed.
 Lemma landsE_zrle fuel : forall s it x y w h tx ty, landsE (zrle_tiles fuel s it x y w h tx ty).
 Proof.
   induction fuel as [|f IH]; intros s it x y w h tx ty; cbn [zrle_tiles]; [exact I|].
